@@ -72,7 +72,7 @@ RShiftB(x, n) == LET L == Len(x) IN
 SameClass(a, b, thr) == (CmpN(a, thr) < 0 /\ CmpN(b, thr) < 0) \/ (CmpN(a, thr) >= 0 /\ CmpN(b, thr) >= 0)
 LockThreshold == FromInt(500000000)
 SeqDisable(le4) == le4[4] >= 128                         \* bit 31
-SeqMasked(le4) == FromLE(<<le4[1], le4[2], (le4[3] \div 64) % 2 * 64>>)   \* type flag (bit 22) | low 16 bits
+SeqMasked(le4) == FromLE(<<le4[1], le4[2], ((le4[3] \div 64) % 2) * 64>>)   \* type flag (bit 22) | low 16 bits
 SeqTypeThr == FromInt(4194304)                           \* 1 << 22
 \* a script number restricted to 32 bits (CSV operand after the disable-bit test) as LE4
 NumLE4(n) == [i \in 1..4 |-> Dig(n.mag, i)]
